@@ -118,6 +118,7 @@ pub fn run(seed: u64, n: usize, out: &mut Out) {
         if r.pct(25) {
             lines.push(gen_other(&mut r));
         }
+        crate::c11::emit_plines(out, &lines);
         let optimize = r.pct(50);
         let engine = Engine::from_rules_parametrised(&lines, Default::default(), true, optimize);
         let mut rules = parse_all(&lines);
